@@ -1712,6 +1712,51 @@ func (m *md4x) evalProcessChunk(dir string, file *ast.File, pcFn *ast.FuncDecl) 
 			}
 		}
 	}
+	// the evaluator gives `binary`, the basic integer types, len, true and false their usual meaning: refuse a
+	// package that gives one of these names another one
+	okImport := false
+	for _, im := range file.Imports {
+		if im.Path.Value == `"encoding/binary"` && (im.Name == nil || im.Name.Name == "binary") {
+			okImport = true
+		} else if im.Name != nil && im.Name.Name == "binary" {
+			return nil, m.errf(im, "the name binary is not encoding/binary")
+		}
+	}
+	_ = okImport // a file without the import cannot mention binary.LittleEndian at all
+	reserved := []string{"len", "true", "false", "bool", "binary"}
+	for n := range intKinds {
+		reserved = append(reserved, n)
+	}
+	for n := range narrowInts {
+		reserved = append(reserved, n)
+	}
+	for _, f := range p.files {
+		for _, d := range f.Decls {
+			var names []*ast.Ident
+			switch v := d.(type) {
+			case *ast.FuncDecl:
+				if v.Recv == nil {
+					names = append(names, v.Name)
+				}
+			case *ast.GenDecl:
+				for _, sp := range v.Specs {
+					switch s := sp.(type) {
+					case *ast.ValueSpec:
+						names = append(names, s.Names...)
+					case *ast.TypeSpec:
+						names = append(names, s.Name)
+					}
+				}
+			}
+			for _, id := range names {
+				for _, r := range reserved {
+					if id.Name == r {
+						return nil, m.errf(id, "the package declares %s: the evaluator would misread it, refused", r)
+					}
+				}
+			}
+		}
+	}
 	if pcFn.Recv == nil || len(pcFn.Recv.List) != 1 || len(pcFn.Recv.List[0].Names) != 1 {
 		return nil, m.errf(pcFn, "processChunk: receiver shape not understood")
 	}
